@@ -21,7 +21,7 @@ var (
 // natsURL starts (once per process) an in-process NATS server on a random port.
 func natsURL() (string, error) {
 	natsOnce.Do(func() {
-		opts := &natsserver.Options{Host: "127.0.0.1", Port: -1, NoLog: true, NoSigs: true, MaxPayload: 4 * 1024 * 1024}
+		opts := &natsserver.Options{Host: "127.0.0.1", Port: -1, NoLog: true, NoSigs: true, MaxPayload: 1024 * 1024}
 		s, err := natsserver.NewServer(opts)
 		if err != nil {
 			natsErr = err
